@@ -402,7 +402,15 @@ def filter_bookkeeping_rule(ctx, rule):
         key = "MultiReceiver::%s -> TSIFilter::%s" % (api, callee)
         want = ["endpoint", "tsi"][:nargs]
         if len(cs) == 1 and cs[0].term.callee_path() == TF + "::" + callee and [re.sub(r"[&*()]", "", show(strip_ref(a))) for a in cs[0].expr[2][1:]] == want:
-            rule.ok(key, "(%s)" % ", ".join(want), cs[0].loc)
+            # ... on every path: an add that is skipped while filtering is switched off is lost when it is switched on afterwards, although
+            # the matching remove still counts
+            afl = Flow(f.body)
+            uncond, _w = afl.postdominated_by(0, lambda b, c0=cs[0].bb: b == c0) if cs[0].bb != 0 else (True, None)
+            if uncond:
+                rule.ok(key, "(%s), on every path" % ", ".join(want), cs[0].loc)
+            else:
+                rule.violation(key, "the filter is updated on some paths only: registrations made on the other paths are not counted, so 'added more "
+                                    "often than removed' no longer means the packet is processed", cs[0].loc)
         else:
             rule.violation(key, "calls %s" % [(c.term.callee_path().split("::")[-1], [show(a, 20) for a in c.expr[2][1:]]) for c in cs], loc(f.sp))
     # TSIFilter::add: existing TSI -> TSI::add(endpoint), otherwise insert(tsi, TSI::new(endpoint))
